@@ -10,6 +10,7 @@ import SlogModel.Model.Buffer
 import SlogModel.Model.Disk
 import SlogModel.Model.Reload
 import SlogModel.Model.Pipe
+import SlogModel.Model.FlushPolicy
 import SlogModel.Gen.Facts
 import Driver.Util
 import Driver.XformParse
@@ -560,8 +561,22 @@ def handleClient : List String → String
   | "script" :: _ => "any"
   | _ => "bad-op"
 
+def handleFlush : List String → String
+  | ["consistent", m, t0, t1, db, da] =>
+    match m.toInt?, t0.toInt?, t1.toInt?, db.toInt?, da.toInt? with
+    | some m, some t0, some t1, some db, some da => if FlushPolicy.consistent m t0 t1 db da then "ok" else "bad"
+    | _, _, _, _, _ => "bad-op"
+  | ["bound", m, l, f] =>
+    match m.toInt?, l.toInt?, f.toInt? with
+    | some m, some l, some f => if FlushPolicy.boundOK m l f then "ok" else "bad"
+    | _, _, _ => "bad-op"
+  | _ => "bad-op"
+
 def handle (st : DState) (line : String) : DState × String :=
   match fields line with
+  | "flush" :: rest => (st, handleFlush rest)
+  | "flushw" :: _ => (st, "any")   -- schedule of the wrapper run: the observations are judged by `flush consistent`
+  | "flushl" :: _ => (st, "any")   -- listener run: judged by `flush bound` and the harness oracle
   | "time" :: rest => (st, handleTime rest)
   | "parse" :: rest => handleParse st rest
   | "frame" :: rest => handleFrame st rest
